@@ -1208,9 +1208,15 @@ Returns:
         cls = self.__class__
         result = cls.__new__(cls)
         memo[id(self)] = result
+        # the decorated cost holds the evaluation counter and monitor: copy together
+        cost, fcalls, evalmon = dill.copy((self._cost, self._fcalls, self._evalmon))
         for k, v in self.__dict__.items():
             if v is self._cost:
-                setattr(result, k, tuple(dill.copy(i) for i in v))
+                setattr(result, k, cost)
+            elif v is self._fcalls:
+                setattr(result, k, fcalls)
+            elif v is self._evalmon:
+                setattr(result, k, evalmon)
             else:
                 try: #XXX: work-around instancemethods in python2.6
                     setattr(result, k, copy.deepcopy(v, memo))
